@@ -338,6 +338,8 @@ impl<C: CrcCalculator> Encapsulator<C> {
             return Err(EncapError::ErrorProtocolType);
         }
 
+        // the re-use bookkeeping is rolled back if the call fails below
+        let saved_re_use_state = (self.last_label, self.re_current_consecutive);
         label = self.check_label_re_use(label);
         let label_len = label.len();
         let pdu_len = pdu.len();
@@ -365,12 +367,14 @@ impl<C: CrcCalculator> Encapsulator<C> {
             // check the buffer size
             // if it cannot write at least more than the header
             if buffer_len < min_header_len {
+                (self.last_label, self.re_current_consecutive) = saved_re_use_state;
                 return Err(EncapError::ErrorSizeBuffer);
             }
 
             // check the metadata len
             // if the protocol cannot handle such large amounts of data
             if TOTAL_LEN_MAX < pdu_len + PROTOCOL_LEN + label_len {
+                (self.last_label, self.re_current_consecutive) = saved_re_use_state;
                 return Err(EncapError::ErrorPduLength);
             }
 
@@ -635,6 +639,8 @@ impl<C: CrcCalculator> Encapsulator<C> {
             return Err(EncapError::ErrorInvalidLabel);
         }
 
+        // the re-use bookkeeping is rolled back if the call fails below
+        let saved_re_use_state = (self.last_label, self.re_current_consecutive);
         label = self.check_label_re_use(label);
         let label_len = label.len();
         let pdu_len = pdu.len();
@@ -663,12 +669,14 @@ impl<C: CrcCalculator> Encapsulator<C> {
             // check the buffer size
             // if it cannot write at least more than the header
             if buffer_len < min_header_len {
+                (self.last_label, self.re_current_consecutive) = saved_re_use_state;
                 return Err(EncapError::ErrorSizeBuffer);
             }
 
             // check the metadata len
             // if the protocol cannot handle such large amounts of data
             if TOTAL_LEN_MAX < pdu_len + PROTOCOL_LEN + label_len {
+                (self.last_label, self.re_current_consecutive) = saved_re_use_state;
                 return Err(EncapError::ErrorPduLength);
             }
 
